@@ -12,6 +12,7 @@ import (
 
 func init() {
 	register("C02", func(c *core.Ctx, tier string) {
+		frameTransportEffects(c, "C02.10")
 		c02OpenGuard(c)
 		c02MessageBranch(c)
 		c02CloseStopsPayload(c)
